@@ -39,7 +39,9 @@ CONFIG = dict(
          'distinct parents (graph); distinct = distinct input fields. '
          'Stream c04run (execution level): the real hercules.NewPipeline(repo).Initialize/Run on a synthetic in-memory repository with '
          'hibernation distance 0..4 and one or two recording leaf items that implement Hibernate/Boot/Dispose and fork by copy with a '
-         'fresh instance id per clone; the complete call log (root, Fork with the clone ids, Consume(commit), Merge(participants), '
+         'fresh instance id per clone - in every second case (field fc) through the public helper hercules.ForkCopyPipelineItem (the ids in the log '
+         'are read back from the clones it returned: one object handed out n times shows as one instance created twice), otherwise by '
+         'constructing the clones themselves; the complete call log (root, Fork with the clone ids, Consume(commit), Merge(participants), '
          'Hibernate, Boot, Dispose, Finalize) of every deployed item is judged by the extracted oracle run_okb (C04_run_lifecycle_sound); '
          'Run panicking or returning an error is a property failure. Histories: ex1..4 = every parent assignment on <=4 commits '
          '(thorough 5) x distances 0..2, octoplain = root + 3..7 (thorough 9) arms + octopus merge + tail x distances 1..4, octo = '
